@@ -100,6 +100,13 @@ type xferWorld struct {
 	tunnelConns  []*verifsim.Conn
 	startAt      time.Duration
 	endAt        time.Duration
+	execs        map[*verifsim.Proc]verifsim.ExecHandler
+	markUp       int
+	markDown     int
+	transferNo   int
+	clientDoneAt time.Duration // first quiescent point at which the client was seen idle again
+	serverDoneAt time.Duration
+	sawClientBusy bool
 }
 
 func newXferWorld(rc *runCtx, o *xferOpts) *xferWorld {
@@ -236,7 +243,48 @@ func (x *xferWorld) start() {
 		})
 	}
 
-	// server process
+	x.execs = execs
+	x.prepareServer()
+	// client
+	w.Go("client.main", x.client, func() {
+		fo := o.filterOpts
+		fo.TerminalColumns = o.cols
+		x.filter = NewTrzszFilter(x.kbd, x.term, x.up[0], x.down[0], fo)
+		if o.tunnel {
+			x.filter.SetTunnelConnector(x.connector("client"))
+		}
+		if o.upload {
+			switch o.uploadVia {
+			case 0:
+				ch, err := x.filter.OneTimeUpload(o.srcPaths)
+				if err != nil {
+					x.uploadErrImm = err
+					x.uploadDone = true
+				} else {
+					x.uploadRes = ch
+					x.w.Go("client.waitres", x.client, func() {
+						verifsim.Yield("waitres")
+						err, ok := <-ch
+						if ok {
+							x.uploadErr = err
+						}
+						x.uploadDone = true
+					})
+				}
+			}
+		} else {
+			x.filter.SetDefaultDownloadPath(o.dstDir)
+		}
+		x.clientReady = true
+		// the "user" now types the command: the server process starts
+		x.launchServer()
+	})
+}
+
+// prepareServer configures the server process of the next transfer (x.server must be fresh).
+func (x *xferWorld) prepareServer() {
+	w, o := x.w, x.o
+	execs := x.execs
 	sp := x.server
 	prog := "tsz"
 	if o.upload {
@@ -288,46 +336,53 @@ func (x *xferWorld) start() {
 		x.up[0].Mangle = vActMangler(o.actEdit)
 	}
 
-	// client
-	w.Go("client.main", x.client, func() {
-		fo := o.filterOpts
-		fo.TerminalColumns = o.cols
-		x.filter = NewTrzszFilter(x.kbd, x.term, x.up[0], x.down[0], fo)
-		if o.tunnel {
-			x.filter.SetTunnelConnector(x.connector("client"))
-		}
+}
+
+func (x *xferWorld) launchServer() {
+	o := x.o
+	x.markUp, x.markDown = x.up[0].NSentInt(), x.downLast().NSentInt()
+	x.server.Start("server.main", func() int {
 		if o.upload {
-			switch o.uploadVia {
-			case 0:
-				ch, err := x.filter.OneTimeUpload(o.srcPaths)
-				if err != nil {
-					x.uploadErrImm = err
+			return TrzMain()
+		}
+		return TszMain()
+	})
+}
+
+// nextTransfer starts another transfer through the same filter and relays (root goroutine).
+func (x *xferWorld) nextTransfer(o *xferOpts) {
+	o.relays, o.relayTmux, o.tunnel, o.profile, o.cols = x.o.relays, x.o.relayTmux, x.o.tunnel, x.o.profile, x.o.cols
+	o.simCap = x.o.simCap
+	x.o = o
+	x.transferNo++
+	x.server = x.w.NewProc(fmt.Sprintf("server%d", x.transferNo+1))
+	x.endAt = 0
+	x.uploadDone, x.uploadErr, x.uploadErrImm = false, nil, nil
+	x.startAt = x.w.Now()
+	x.prepareServer()
+	x.w.Go("client.next", x.client, func() {
+		if o.upload {
+			ch, err := x.filter.OneTimeUpload(o.srcPaths)
+			if err != nil {
+				x.uploadErrImm = err
+				x.uploadDone = true
+			} else {
+				x.w.Go("client.waitres", x.client, func() {
+					verifsim.Yield("waitres")
+					err, ok := <-ch
+					if ok {
+						x.uploadErr = err
+					}
 					x.uploadDone = true
-				} else {
-					x.uploadRes = ch
-					x.w.Go("client.waitres", x.client, func() {
-						verifsim.Yield("waitres")
-						err, ok := <-ch
-						if ok {
-							x.uploadErr = err
-						}
-						x.uploadDone = true
-					})
-				}
+				})
 			}
 		} else {
 			x.filter.SetDefaultDownloadPath(o.dstDir)
 		}
-		x.clientReady = true
-		// the "user" now types the command: the server process starts
-		sp.Start("server.main", func() int {
-			if o.upload {
-				return TrzMain()
-			}
-			return TszMain()
-		})
+		x.launchServer()
 	})
 }
+
 
 // finished is the quiescent-point predicate of a plain transfer.
 func (x *xferWorld) finished() bool {
@@ -337,6 +392,7 @@ func (x *xferWorld) finished() bool {
 	if !x.clientReady || x.filter == nil {
 		return false
 	}
+	x.observe()
 	if !x.server.Exited {
 		return false
 	}
@@ -352,6 +408,23 @@ func (x *xferWorld) finished() bool {
 	}
 	// small settle period so trailing output is written
 	return x.w.Now()-x.endAt >= 200*time.Millisecond
+}
+
+// observe records when each role was first seen finished (called at quiescent points).
+func (x *xferWorld) observe() {
+	if x.filter == nil {
+		return
+	}
+	busy := x.filter.IsTransferringFiles()
+	if busy {
+		x.sawClientBusy = true
+		x.clientDoneAt = 0
+	} else if x.sawClientBusy && x.clientDoneAt == 0 {
+		x.clientDoneAt = x.w.Now()
+	}
+	if x.server.Exited && x.serverDoneAt == 0 {
+		x.serverDoneAt = x.server.ExitAt
+	}
 }
 
 // settle keeps the scheduler running for d of simulated time (harness timers drive the clock).
@@ -409,6 +482,12 @@ func (x *xferWorld) report() *xferReport {
 	// what the server process wrote / the client received: last hop down link as written
 	down, _, _ := x.downLast().Snapshot()
 	up, _, _ := x.up[0].Snapshot()
+	if x.markDown <= len(down) {
+		down = down[x.markDown:]
+	}
+	if x.markUp <= len(up) {
+		up = up[x.markUp:]
+	}
 	var tunUp, tunDown []byte
 	for _, c := range x.tunnelConns {
 		a, _, _ := c.Wr.Snapshot()
@@ -582,6 +661,14 @@ func vGenContent(tp *verifsim.Tape, size int) ([]byte, string) {
 		}
 		return b, "protected"
 	}
+}
+
+// vTryWrite creates a file unless something is in the way (pre-state generation).
+func vTryWrite(path string, data []byte) {
+	if _, err := os.Lstat(path); err == nil {
+		return
+	}
+	_ = os.WriteFile(path, data, 0644)
 }
 
 func vWriteFile(path string, data []byte) {
